@@ -80,6 +80,7 @@ Definition abs_err (e : errv) : option ekind :=
   | ErrEOF => Some EEofPeek
   | ErrFmt [c] => find (fun k => (kind_code k =? c)%N) all_kinds
   | ErrFmt s => lookup_fmt s fmt_kinds
+  | ErrNamed _ => None
   end.
 Lemma abs_conc k : abs_err (conc_err k) = Some k.
 Proof. destruct k; reflexivity. Qed.
